@@ -23,7 +23,8 @@ FLOORS = {
               'trans:number->blank': 20, 'trans:0->FALSE': 3, 'trans:1->TRUE': 3,
               'trans:blank->number': 10, 'write_before_dependant_built': 20,
               'cfg:mem': 20, 'cfg:xlsx': 20, 'cfg:yml': 5, 'cfg:json': 5, 'cfg:pkl': 5,
-              'dependant_compares_after_write': 1000, 'failed_builds': 15, 'real_book_histories': 25,
+              'dependant_compares_after_write': 1000, 'failed_builds': 15, 'formula_cells_overwritten_after_a_failed_build': 15,
+              'real_book_histories': 25,
               'real_value_compares': 350},
     'thorough': {'histories': 3000, 'compares': 100000, 'trans:0->FALSE': 50, 'trans:1->TRUE': 50,
                  'trans:number->blank': 300, 'trans:blank->number': 200,
@@ -58,6 +59,7 @@ class Run:
         self.model = hist.Recorder(hist.obtain(config, spec, tmpdir, 'm', init), config)
         self.all_cells = wb.all_addresses(spec)
         self.has_poison = False       # a model holding a cell that cannot be built cannot be saved and loaded
+        self.overwritten = set()      # formula cells a set_value has turned into inputs
         sd = dict(spec['sheets']).get(wbgen.SD) or {'A1': 0}
         self.sd_max = (max(wb.split_coord(c)[0] for c in sd), max(wb.split_coord(c)[1] for c in sd))
 
@@ -90,6 +92,12 @@ class Run:
         self.inputs[address] = value
         self.fresh = None
         self.ctx.count('writes')
+        if address in self.meta['formulas']:
+            if address not in self.overwritten:
+                self.ctx.count('formula_cells_overwritten')
+            else:
+                self.ctx.count('writes_to_cells_which_were_formulas')
+            self.overwritten.add(address)
         if wb.norm(old) != wb.norm(value):
             self.ctx.count('value_changing_writes')
             self.ctx.count('trans:' + transition(old, value))
@@ -238,7 +246,7 @@ class Run:
     # -- history generation --------------------------------------------------
     def candidates(self):
         return sorted(a for a in self.model.comp.cell_map
-                      if ':' not in a and a not in self.meta['formulas'] and
+                      if ':' not in a and (a not in self.meta['formulas'] or a in self.overwritten) and
                       a.rsplit('!', 1)[0] in self.sheets and '.cf!' not in a)
 
     def random_op(self, rng):
@@ -254,6 +262,18 @@ class Run:
                 if v is None or c > self.sd_max[0] or r_ > self.sd_max[1]:
                     return ('eval', a)
             return ('set', a, v)
+        if r < 0.475:
+            # a value over a formula: the cell is an input from now on (and is written again later like any other)
+            fcells = sorted(a for a, f in self.meta['formulas'].items()
+                            if f['form'] not in ('cse', 'cse-consumer') and a not in self.overwritten and
+                            self.model.has(a) and a.rsplit('!', 1)[0] in self.sheets)
+            if fcells:
+                a = rng.choice(fcells)
+                shown = self.want(a)
+                v = rng.choice([3.25, -7, 0, 12.5, 'ov', True])
+                # (a write of the value the cell shows already keeps the formula: C09's known finding)
+                if shown[0] == 'v' and not (wb.same(shown[1], v) or shown[1] == v):
+                    return ('set', a, v)
         if r < 0.50 and self.config != 'xlsx' and len(self.ops) > 2 and not self.has_poison:
             return ('reload', rng.choice(['yml', 'json', 'pkl']))
         if r < 0.52:
@@ -329,6 +349,7 @@ def one_history(ctx, spec, meta, config, eager, rng=None, ops=None, n_ops=None):
         clean = dict(spec, sheets=[[s, {c: v for c, v in cells.items() if wb.addr(s, c) != poison}]
                                    for s, cells in spec['sheets']])
         clean.pop('poison')
+        clean.pop('poison_overwrite', None)
         run = Run(ctx, clean, meta, config, eager, ctx.tmpdir)
         if not run.init_exc:
             if config in ('mem', 'xlsx'):
@@ -354,6 +375,18 @@ def one_history(ctx, spec, meta, config, eager, rng=None, ops=None, n_ops=None):
                     cur = run.current_value(probe[1])
                     new_v = 41.5 if wb.norm(cur) != wb.norm(41.5) else 7
                     for op in (['eval', probe[0]], ['set', probe[1], new_v], ['eval', probe[0]]):
+                        run.apply(op)
+                over = spec.get('poison_overwrite')
+                if over and run.model.has(over):
+                    # a formula cell queued by the build which failed is overwritten with a constant: it is an input
+                    # now, and shows what was written
+                    full.pop('poison_overwrite', None)
+                    ctx.count('formula_cells_overwritten_after_a_failed_build')
+                    # (a write of the value the cell shows already keeps the formula: C09's known finding)
+                    shown = run.want(over)
+                    new_v = 3.25 if shown[0] != 'v' or not wb.same(shown[1], 3.25) else 4.75
+                    for op in [['set', over, new_v], ['eval', over]] + \
+                            [['eval', d] for d in sorted(wbgen.dependants(meta, over))[:2]]:
                         run.apply(op)
     else:
         run = Run(ctx, spec, meta, config, eager, ctx.tmpdir)
@@ -438,6 +471,7 @@ def run(ctx):
                 # is built between the failure and the probe: the edges of the good precedent, queued when the build
                 # failed, are still to be made
                 spec['poison_probe'] = [p1, rng.choice(feeding)]
+            spec['poison_overwrite'] = p2
         one_history(ctx, spec, meta, config, eager, rng=rng, n_ops=rng.randint(12, 25))
 
 
